@@ -29,6 +29,12 @@ Proof.
   cbv beta in H. lia.
 Qed.
 
+Lemma wv_bpe_specials_valid : specials_valid wv_bpe.
+Proof.
+  intros sp Hsp. change (vspecials wv_bpe) with [encode_rune (bmap 205); encode_rune (bmap 206)] in Hsp.
+  destruct Hsp as [<-|[<-|[]]]; [exists [205%N]|exists [206%N]]; (split; [repeat constructor|split; [discriminate|reflexivity]]).
+Qed.
+
 (** the text U+00CD (bytes c3 8d) is taken for the "special" token 105 and decodes to the single byte cd *)
 Lemma wv_bpe_counterexample :
   bpe_decode wv_bpe (bpe_encode wv_bpe wsplit [195; 141]%N false) = Some [205%N].
